@@ -20,6 +20,16 @@ use std::time::{Duration, Instant};
 
 pub const SHARDS: usize = 16;
 
+static THOROUGH: AtomicBool = AtomicBool::new(false);
+
+/// set by the check driver; lets a run function spend extra work in the thorough tier
+pub fn set_thorough(b: bool) {
+    THOROUGH.store(b, Ordering::SeqCst);
+}
+pub fn is_thorough() -> bool {
+    THOROUGH.load(Ordering::SeqCst)
+}
+
 #[derive(Clone, Copy, PartialEq, Eq, Debug)]
 pub enum Tier {
     Quick,
@@ -120,6 +130,7 @@ pub struct StageStats {
     pub rule: String,
     pub shrink_runs: u64,
     pub slow_cases: Vec<String>,
+    pub inconclusive: Vec<String>,
 }
 
 impl StageStats {
@@ -148,6 +159,11 @@ impl StageStats {
             }
         }
         self.shrink_runs += o.shrink_runs;
+        for s in o.inconclusive {
+            if self.inconclusive.len() < 5 {
+                self.inconclusive.push(s);
+            }
+        }
         for s in o.slow_cases {
             if self.slow_cases.len() < 5 {
                 self.slow_cases.push(s);
@@ -277,6 +293,13 @@ impl<'a, C: Clone + Send + Debug + Serialize + 'static> ShardCtx<'a, C> {
             CaseOutcome::Fail(m, obs) => {
                 if counting {
                     self.account(case, &obs);
+                }
+                if m.starts_with("INCONCLUSIVE:") {
+                    // a self-check of the harness failed: never a violation
+                    if self.stats.inconclusive.len() < 3 {
+                        self.stats.inconclusive.push(format!("{} :: {}", m, (self.stage.render)(case)));
+                    }
+                    return None;
                 }
                 Some(m)
             }
